@@ -68,6 +68,7 @@ func init() {
 		"(reflect.rtype).Out":          ext۰reflect۰rtype۰Out,
 		"(reflect.rtype).Size":         ext۰reflect۰rtype۰Size,
 		"(reflect.rtype).PkgPath":      ext۰reflect۰rtype۰PkgPath,
+		"(reflect.rtype).Method":       ext۰reflect۰rtype۰Method,
 		"(reflect.rtype).Name":         ext۰reflect۰rtype۰Name,
 		"(reflect.Value).IsZero":       ext۰reflect۰Value۰IsZero,
 		"(reflect.rtype).String":       ext۰reflect۰rtype۰String,
